@@ -218,8 +218,8 @@ def r12_7(facts, res):
         if narrow:
             res.add(Finding("R12-7", ty + "|narrowed", "%s keeps the parent only when it is of one kind (%s): a node of this kind directly under the "
                             "document reports no parent although the document lists it" % (f["path"], ", ".join(narrow)), f["file"], f["line"], {}))
-    if st["instances"] < 6:
-        raise BrokenCheck("R12-7: %d parent_node implementations of child kinds (floor 6)" % st["instances"])
+    if st["instances"] < 3:
+        raise BrokenCheck("R12-7: %d parent_node implementations of child kinds (floor 3)" % st["instances"])
 
 
 def run(facts, tier):
